@@ -1,4 +1,4 @@
-import MgpuProofs.C17WLive6
+import MgpuProofs.C17WLive10
 /-! # C17 — bounded-latency liveness of the repaired `simplebankedmemory` for EVERY pipeline width
 
 With several lanes the position of an item (lane, stage) says nothing about its age: the oldest request of a bank can sit
@@ -15,9 +15,15 @@ does not decrease. The measure here uses the bookkeeping of the repair — `bank
 
 * every request of `inOrder`: `ordPot = position · potBound + headPot` with the explicit
   `potBound c = 2 · width · depth · (depth · cyclesPerStage + 1) + 3` (`liveness_measure_all_widths`,
-  `liveness_bounded_all_widths`); the cycle counters never exceed `cyclePerStage − 1` (`CycOk`, an invariant of every run).
+  `liveness_inorder_all_widths`); the cycle counters never exceed `cyclePerStage − 1` (`CycOk`, an invariant of every run).
 
-Proof files `C17WLive`, `C17WLive2` … `C17WLive5`. -/
+* every request in flight for a bank, wherever it waits: the bank's chain is `inOrder`, then the delay queue, then the
+  pending list and the port buffer; `chainPot` = measure of the head of the chain (`headPot`; delay-queue counter +
+  `potBound`; `max miss 1 + potBound + 1 / + 2` for the pending list / port buffer), measure of a request =
+  `position in the chain · chainBound + chainPot` (`liveness_chain_measure_all_widths`,
+  `liveness_bounded_all_widths`); delay-queue counters never exceed `miss` (`DqOk`).
+
+Proof files `C17WLive`, `C17WLive2` … `C17WLive10`. -/
 namespace C17
 open WLive WBnd
 
@@ -116,7 +122,7 @@ theorem liveness_measure_all_widths (c : Cfg) (hd0 : 0 < c.depth) (hp0 : 0 < c.p
 entered the bank pipeline: lanes, post-pipeline buffer or set-aside list) is answered within
 `(p + 1) · (2 · width · depth · (depth · cyclesPerStage + 1) + 3)` ticks in which the port takes its bank's responses —
 for every width, depth, number of banks, latency, row-buffer timing and buffer size. -/
-theorem liveness_bounded_all_widths (c : Cfg) (hd0 : 0 < c.depth) (hp0 : 0 < c.post) (ops1 ops2 : List Op) (k : Nat)
+theorem liveness_inorder_all_widths (c : Cfg) (hd0 : 0 < c.depth) (hp0 : 0 < c.post) (ops1 ops2 : List Op) (k : Nat)
     (x : Req) (b : WBank) (pre suf : List Req) (hx : InOrderAt (runW c ops1) k x b pre suf)
     (hnp : noPanicW c (runW c ops1) ops2 = true)
     (hn : (pre.length + 1) * potBound c ≤ acceptingTicksW c k (runW c ops1) ops2) :
@@ -131,13 +137,13 @@ theorem liveness_bounded_all_widths (c : Cfg) (hd0 : 0 < c.depth) (hp0 : 0 < c.p
 `(p + 1) · (2 · depth · (depth · cyclesPerStage + 1) + 3)` accepting ticks (the sharper one-lane bound
 `(ahead + 1) · latencyBound`, which also covers requests still in the delay queue / pending list / port buffer, is
 `liveness_explicit_repaired`). -/
-theorem liveness_bounded_one_lane_corollary (c : Cfg) (hw : c.width = 1) (hd0 : 0 < c.depth) (hp0 : 0 < c.post)
+theorem liveness_inorder_one_lane_corollary (c : Cfg) (hw : c.width = 1) (hd0 : 0 < c.depth) (hp0 : 0 < c.post)
     (ops1 ops2 : List Op) (k : Nat) (x : Req) (b : WBank) (pre suf : List Req)
     (hx : InOrderAt (runW c ops1) k x b pre suf) (hnp : noPanicW c (runW c ops1) ops2 = true)
     (hn : (pre.length + 1) * (2 * (c.depth * (c.depth * stageCost c + 1)) + 3)
       ≤ acceptingTicksW c k (runW c ops1) ops2) :
     x ∈ (runW c (ops1 ++ ops2)).resp.map (·.req) := by
-  apply liveness_bounded_all_widths c hd0 hp0 ops1 ops2 k x b pre suf hx hnp
+  apply liveness_inorder_all_widths c hd0 hp0 ops1 ops2 k x b pre suf hx hnp
   have : potBound c = 2 * (c.depth * (c.depth * stageCost c + 1)) + 3 := by
     unfold potBound wEntry; rw [hw, Nat.one_mul]
   rw [this]
@@ -151,7 +157,7 @@ example : ∃ b, InOrderAt (runW lv2 lv2pre) 0 lvB b [lvA] [] ∧ ordPot lv2 b [
   refine ⟨_, ⟨rfl, ?_⟩, ?_, ?_⟩ <;> decide +kernel
 
 example : lvB ∈ (runW lv2 (lv2pre ++ List.replicate 54 .tick)).resp.map (·.req) :=
-  liveness_bounded_all_widths lv2 (by decide) (by decide) lv2pre _ 0 lvB _ [lvA] [] ⟨rfl, by decide +kernel⟩
+  liveness_inorder_all_widths lv2 (by decide) (by decide) lv2pre _ 0 lvB _ [lvA] [] ⟨rfl, by decide +kernel⟩
     (by decide +kernel) (by decide +kernel)
 
 example : headPotW lv2 (runW lv2 lv2pre) 0 ≤ potBound lv2 := head_potential_bounded lv2 lv2pre 0
@@ -159,7 +165,7 @@ example : headPotW lv2 (runW lv2 lv2pre) 0 ≤ potBound lv2 := head_potential_bo
 /-- one lane (MI300A bank pipeline 1 × 5): the corollary's bound for the oldest request is 63 accepting ticks -/
 def lv1 : Cfg := ⟨1, 6, 1, 5, 1, 0, 0, 1, 2, none, none⟩
 example : lvA ∈ (runW lv1 ([.deliver .wr 0 1 [0xaa] none, .tick, .tick] ++ List.replicate 63 .tick)).resp.map (·.req) :=
-  liveness_bounded_one_lane_corollary lv1 rfl (by decide) (by decide) _ _ 0 lvA _ [] [] ⟨rfl, by decide +kernel⟩
+  liveness_inorder_one_lane_corollary lv1 rfl (by decide) (by decide) _ _ 0 lvA _ [] [] ⟨rfl, by decide +kernel⟩
     (by decide +kernel) (by decide +kernel)
 
 /-! ### the `noPanicW` hypothesis follows from well-formed traffic -/
@@ -171,14 +177,14 @@ theorem no_panic_all_widths (c : Cfg) (ops : List Op) (hok : ∀ op ∈ ops, opO
     (tickFlagsW c (runW c ops)).2 = none :=
   tick_nofaultW c _ (run_invW c ops) (run_arrOk c ops _ hok (fun _ h => by cases h))
 
-/-- **Bounded-latency liveness for every width and depth, on well-formed traffic**: `liveness_bounded_all_widths` with
+/-- **Bounded-latency liveness for every width and depth, on well-formed traffic**: `liveness_inorder_all_widths` with
 the hypothesis of the one-lane theorem (`opOk` on all operations) instead of "the run does not panic". -/
-theorem liveness_bounded_all_widths_ok_traffic (c : Cfg) (hd0 : 0 < c.depth) (hp0 : 0 < c.post) (ops1 ops2 : List Op)
+theorem liveness_inorder_ok_traffic_all_widths (c : Cfg) (hd0 : 0 < c.depth) (hp0 : 0 < c.post) (ops1 ops2 : List Op)
     (hok : ∀ op ∈ ops1 ++ ops2, opOk c op) (k : Nat) (x : Req) (b : WBank) (pre suf : List Req)
     (hx : InOrderAt (runW c ops1) k x b pre suf)
     (hn : (pre.length + 1) * potBound c ≤ acceptingTicksW c k (runW c ops1) ops2) :
     x ∈ (runW c (ops1 ++ ops2)).resp.map (·.req) :=
-  liveness_bounded_all_widths c hd0 hp0 ops1 ops2 k x b pre suf hx
+  liveness_inorder_all_widths c hd0 hp0 ops1 ops2 k x b pre suf hx
     (noPanicW_of_ok c ops2 _ (fun op h => hok op (by simp [h])) (run_invW c ops1)
       (run_arrOk c ops1 _ (fun op h => hok op (by simp [h])) (fun _ h => by cases h))) hn
 
@@ -186,7 +192,99 @@ example : (tickFlagsW lv2 (runW lv2 (lv2pre ++ [.tick, .tick]))).2 = none :=
   no_panic_all_widths lv2 _ (by decide +kernel)
 
 example : lvB ∈ (runW lv2 (lv2pre ++ List.replicate 54 .tick)).resp.map (·.req) :=
-  liveness_bounded_all_widths_ok_traffic lv2 (by decide) (by decide) lv2pre _ (by decide +kernel) 0 lvB _ [lvA] []
+  liveness_inorder_ok_traffic_all_widths lv2 (by decide) (by decide) lv2pre _ (by decide +kernel) 0 lvB _ [lvA] []
     ⟨rfl, by decide +kernel⟩ (by decide +kernel)
+
+/-! ### every request in flight, wherever it waits -/
+
+/-- **The measure of the head of a bank's chain is bounded** in every reachable state:
+`chainPot ≤ chainBound c = max miss 1 + 2 · width · depth · (depth · cyclesPerStage + 1) + 5`. -/
+theorem chain_potential_bounded (c : Cfg) (ops : List Op) (k : Nat) : chainPot c (runW c ops) k ≤ chainBound c :=
+  chainPot_le c _ k (run_good c ops) (run_cyc c ops) (run_dqOk c ops)
+
+/-- **The measure decreases for every request in flight, every width and depth.** `x` is at position `|pre|` of bank
+`k`'s chain (`inOrder`, delay queue, pending list, port buffer — oldest first) in a reachable state. Along any
+continuation without panic, `x` is answered once the continuation contains `|pre| · chainBound + chainPot` ticks in which
+the port took bank `k`'s responses; deliveries, refused ticks and drains may be interleaved arbitrarily. -/
+theorem liveness_chain_measure_all_widths (c : Cfg) (hw : 0 < c.width) (hd0 : 0 < c.depth) (hp0 : 0 < c.post)
+    (ops1 ops2 : List Op) (k : Nat) (hk : k < c.banks) (x : Req) (pre suf : List Req)
+    (hx : chainW c (runW c ops1) k = pre ++ x :: suf) (hnp : noPanicW c (runW c ops1) ops2 = true)
+    (hn : pre.length * chainBound c + chainPot c (runW c ops1) k ≤ acceptingTicksW c k (runW c ops1) ops2) :
+    x ∈ (runW c (ops1 ++ ops2)).resp.map (·.req) := by
+  have : runW c (ops1 ++ ops2) = ops2.foldl (stepW c) (runW c ops1) := by unfold runW; rw [List.foldl_append]
+  rw [this]
+  exact chain_fold c hw hd0 hp0 k x ops2 _ (run_liveInv c ops1) (by rw [WQuiet.run_len]; exact hk) hnp
+    (Or.inr ⟨pre, suf, hx, hn⟩)
+
+/-- **Bounded-latency liveness of the repaired component for every width and depth, every accepted request.** On
+well-formed traffic (`opOk`, as in the one-lane theorem) a request `r` accepted by the Top port is answered once the
+continuation contains `(requests in flight for its bank) · chainBound` ticks in which the port takes its bank's
+responses, `chainBound c = max miss 1 + 2 · width · depth · (depth · cyclesPerStage + 1) + 5` — for every number of
+lanes, stages, banks, every latency, row-buffer timing on or off, every buffer size ≥ 1. -/
+theorem liveness_bounded_all_widths (c : Cfg) (hw : 0 < c.width) (hd0 : 0 < c.depth) (hp0 : 0 < c.post)
+    (hb0 : 0 < c.banks) (ops1 ops2 : List Op) (hok : ∀ op ∈ ops1 ++ ops2, opOk c op) (r : Req)
+    (hr : r ∈ (runW c ops1).arrived)
+    (hn : (chainW c (runW c ops1) (bankOf c r.addr)).length * chainBound c
+      ≤ acceptingTicksW c (bankOf c r.addr) (runW c ops1) ops2) :
+    r ∈ (runW c (ops1 ++ ops2)).resp.map (·.req) := by
+  have hinv := run_invW c ops1
+  have hnp := noPanicW_of_ok c ops2 _ (fun op h => hok op (by simp [h])) hinv
+    (run_arrOk c ops1 _ (fun op h => hok op (by simp [h])) (fun _ h => by cases h))
+  have hk : bankOf c r.addr < c.banks := Nat.mod_lt _ hb0
+  have hrw := hinv.r (bankOf c r.addr)
+  unfold RW at hrw
+  have hmem : r ∈ (runW c ops1).arrived.filter (inB c (bankOf c r.addr)) :=
+    List.mem_filter.2 ⟨hr, by simp [inB]⟩
+  rw [← hrw] at hmem
+  have hfold : runW c (ops1 ++ ops2) = ops2.foldl (stepW c) (runW c ops1) := by unfold runW; rw [List.foldl_append]
+  rcases List.mem_append.1 hmem with h1 | h1
+  · rw [hfold]
+    exact chain_fold c hw hd0 hp0 _ r ops2 _ (run_liveInv c ops1) (by rw [WQuiet.run_len]; exact hk) hnp
+      (Or.inl (List.mem_filter.1 h1).1)
+  · obtain ⟨pre, suf, hsplit⟩ := List.append_of_mem h1
+    apply liveness_chain_measure_all_widths c hw hd0 hp0 ops1 ops2 _ hk r pre suf hsplit hnp
+    have hB := chain_potential_bounded c ops1 (bankOf c r.addr)
+    rw [hsplit] at hn
+    simp only [List.length_append, List.length_cons, Nat.add_mul, Nat.succ_mul] at hn
+    omega
+
+/-! non-vacuity: row-buffer timing on (row 8, miss 5), two lanes; the second write is still in the port buffer -/
+
+def lv3 : Cfg := ⟨2, 6, 2, 2, 1, 8, 5, 1, 2, none, none⟩
+def lv3pre : List Op := [.deliver .wr 0 1 [0xaa] none, .tick, .deliver .wr 0x100 1 [0xbb] none]
+def lvC : Req := ⟨1, .wr, 0x100, 1, [0xbb], none⟩
+
+example : chainW lv3 (runW lv3 lv3pre) 0 = [lvA, lvC] ∧ chainBound lv3 = 34 ∧
+    ((runW lv3 lv3pre).banks.map fun b => (b.order.length, b.dq.length)) = [(0, 0), (0, 0)] ∧
+    (runW lv3 lv3pre).topIn = [lvC] := by decide +kernel
+
+example : lvC ∈ (runW lv3 (lv3pre ++ List.replicate 68 .tick)).resp.map (·.req) :=
+  liveness_bounded_all_widths lv3 (by decide) (by decide) (by decide) (by decide) lv3pre _ (by decide +kernel)
+    lvC (by decide +kernel) (by decide +kernel)
+
+example : chainPot lv3 (runW lv3 lv3pre) 0 ≤ chainBound lv3 := chain_potential_bounded lv3 lv3pre 0
+
+/-- **The one-lane bound as a corollary** of `liveness_bounded_all_widths`: with `width = 1` every accepted request is
+answered within `(requests in flight for its bank) · (max miss 1 + 2 · depth · (depth · cyclesPerStage + 1) + 5)`
+accepting ticks (the sharper one-lane bound `(ahead + 1) · latencyBound` is `liveness_explicit_repaired`). -/
+theorem liveness_bounded_one_lane (c : Cfg) (hw : c.width = 1) (hd0 : 0 < c.depth) (hp0 : 0 < c.post)
+    (hb0 : 0 < c.banks) (ops1 ops2 : List Op) (hok : ∀ op ∈ ops1 ++ ops2, opOk c op) (r : Req)
+    (hr : r ∈ (runW c ops1).arrived)
+    (hn : (chainW c (runW c ops1) (bankOf c r.addr)).length *
+        (max c.miss 1 + 2 * (c.depth * (c.depth * stageCost c + 1)) + 5)
+      ≤ acceptingTicksW c (bankOf c r.addr) (runW c ops1) ops2) :
+    r ∈ (runW c (ops1 ++ ops2)).resp.map (·.req) := by
+  apply liveness_bounded_all_widths c (by omega) hd0 hp0 hb0 ops1 ops2 hok r hr
+  have : chainBound c = max c.miss 1 + 2 * (c.depth * (c.depth * stageCost c + 1)) + 5 := by
+    unfold chainBound potBound wEntry; rw [hw, Nat.one_mul]; omega
+  rw [this]
+  exact hn
+
+/-- MI300A bank pipeline (1 lane × 5 stages, row-miss delay 52): `chainBound = 52 + 2·5·6 + 5 = 117` -/
+def mi300aW : Cfg := ⟨16, 6, 1, 5, 1, 11, 52, 128, 1024, some ⟨128, 16, 0, 0⟩, some 4294967296⟩
+def wrW : Req := ⟨0, .wr, 0x40, 4, [1, 2, 3, 4], none⟩
+example : wrW ∈ (runW mi300aW ([.deliver .wr 0x40 4 [1, 2, 3, 4] none] ++ List.replicate 117 .tick)).resp.map (·.req) :=
+  liveness_bounded_one_lane mi300aW rfl (by decide) (by decide) (by decide) _ _ (by decide +kernel) wrW
+    (by decide +kernel) (by decide +kernel)
 
 end C17
